@@ -1060,7 +1060,7 @@ theorem perm_move_end {α} (a b c d : List α) : List.Perm (a ++ (b ++ d) ++ c) 
   simp only [List.append_assoc]
   exact List.Perm.append_left a (List.Perm.append_left b List.perm_append_comm)
 
-set_option maxHeartbeats 800000 in
+set_option maxHeartbeats 400000 in
 /-- every step of the two-queue LTS, as seen by the consumer side of the input queue -/
 theorem in1step_of_step {c c' : Cfg} {tid : Tid} {alt : Bool} {lbl : String} (hg : Good c)
     (h : step F c tid alt = some (lbl, c')) :
